@@ -13,7 +13,7 @@ INVS = ["Conservation", "NoStarvation", "EveryByteCredited"]
 D = {"dB_out", "dB_err"}
 BASE = dict(UsersA={"a1", "a2"}, UsersB="@{}", Daemons=D, OpsA="@{}", OpsB="@{}", MaxCalls=1, W0=3, MaxPkt=2, PeerMax=2,
             Thresh=0, SendN=4, Codes={1}, ReadSizes={1, 2}, Modes={"block"}, Loss=False,
-            FixRace=False, FixSendall=False, FixCredit=True, Mut="none", SpinCap=3)
+            FixRace=False, FixSendall=False, FixCredit=True, Mut="none", SpinCap=3, HoldBack=False)
 U = 4032
 LIVE = dict(spec="FairSpec", properties=["Progress"])
 LEAK = "pinned _feed_extended: type-2 extended data discarded without credit"
